@@ -8,6 +8,16 @@ overflow / unsigned wrap-around).
 namespace Fcppt.C13
 variable {n : Nat}
 
+instance {ε α : Type} [DecidableEq ε] [DecidableEq α] : DecidableEq (Except ε α)
+  | .ok a, .ok b => if h : a = b then isTrue (by rw [h]) else isFalse (fun e => h (Except.ok.inj e))
+  | .error a, .error b => if h : a = b then isTrue (by rw [h]) else isFalse (fun e => h (Except.error.inj e))
+  | .ok _, .error _ => isFalse (fun e => by cases e)
+  | .error _, .ok _ => isFalse (fun e => by cases e)
+
+instance (b : Box n) (p : Vec n) : Decidable (Mem b p) := by unfold Mem; infer_instance
+instance (b : Box n) (p : Vec n) : Decidable (MemClosed b p) := by unfold MemClosed; infer_instance
+instance (t : Ty) (b : Box n) : Decidable (b.Rep t) := by unfold Box.Rep; infer_instance
+
 theorem allOf_iff (f : Fin n → Bool) : allOf f = true ↔ ∀ i, f i = true := by
   simp [allOf, List.all_eq_true, List.mem_finRange]
 
